@@ -82,6 +82,12 @@ class Lockstep:
             other = self.ctor(False)
             randomize(other, self.g)
             sd = {k: v.to(self.dtype) if v.is_floating_point() else v for k, v in other.state_dict().items()}
+            child = [k for k in sd if "." in k and not k.startswith("permutation")]
+            if child and self.nextver % 2 == 1:
+                # every other load changes ONLY the parameters held by child modules (the Householder vectors of QR / SVD):
+                # the transform's own entries keep their current values
+                cur = t.state_dict()
+                sd = {k: (v if k in child else cur[k].clone()) for k, v in sd.items()}
             if hasattr(t, "permutation"):
                 sd["permutation._permutation"] = t.permutation._permutation.clone()
             t.load_state_dict(sd)
